@@ -4,6 +4,7 @@ import Driver.Numscript
 import Driver.Router
 import Driver.Lock
 import Driver.Paginate
+import Driver.Log
 /-! registry of the areas the driver serves -/
 namespace Driver
 def areas : List (String × Handler) := [
@@ -11,6 +12,7 @@ def areas : List (String × Handler) := [
   ("numscript", NumscriptD.handle),
   ("router", RouterD.handle),
   ("lock", LockD.handle),
-  ("paginate", PaginateD.handle)
+  ("paginate", PaginateD.handle),
+  ("logrt", LogD.handle)
 ]
 end Driver
